@@ -9,7 +9,7 @@ From Coq Require Export ZArith List Lia Bool String.
 Require Export F204.Base.Util.
 Open Scope Z_scope.
 
-Inductive err := CtxTooLong | RngFailed | Malformed | Reject.
+Inductive err := CtxTooLong | RngFailed | Malformed | Reject | LoopLimit.
 
 Inductive res (A : Type) : Type :=
 | Ok (a : A)
